@@ -1,7 +1,230 @@
-//! `vh drive <ID> --tier quick|thorough` — the parent for one property check.
+//! `vh drive <ID> --tier quick|thorough [--seed N]` — the parent for one property check.
+//! `vh drive --replay <file>` re-executes the case recorded in a replay file.
+use crate::drv::*;
+use crate::util::json::{self, J};
 use crate::Args;
+use std::time::Instant;
 
-pub fn main(_args: &Args) -> i32 {
-    eprintln!("drive: not wired yet");
-    3
+pub const CORES: usize = 16;
+
+pub fn bin(variant: &str) -> String {
+    match variant {
+        "rel" => "/verif/target/rel/release/vh".to_string(),
+        "dbg" => "/verif/target/dbg/debug/vh".to_string(),
+        "asan" => "/verif/target/asan/x86_64-unknown-linux-gnu/release/vh".to_string(),
+        "tsan" => "/verif/target/tsan/x86_64-unknown-linux-gnu/release/vh".to_string(),
+        _ => panic!("unknown variant"),
+    }
+}
+
+pub fn have(variant: &str) -> bool {
+    std::path::Path::new(&bin(variant)).exists()
+}
+
+fn sv(v: &[&str]) -> Vec<String> {
+    v.iter().map(|s| s.to_string()).collect()
+}
+
+pub struct Plan {
+    pub level: &'static str,
+    pub rule: String,
+    pub assumptions: Vec<String>,
+    pub jobs: Vec<Job>,
+    pub eval_counter: &'static str,
+    pub required_nonzero: Vec<String>,
+    pub min_eval: u64,
+    pub min_distinct: u64,
+    pub extra_prefixes: Vec<&'static str>,
+    pub exhaustive: bool,
+    pub par: usize,
+}
+
+fn seq_jobs(prop: &str, seed: u64, variant: &str, shards: u64, count: u64, secs: u64, base: u64) -> Vec<Job> {
+    (0..shards)
+        .map(|k| {
+            let mut j = Job::new(
+                &format!("seq-{}-{}", variant, k),
+                &bin(variant),
+                sv(&["seq", "--prop", prop, "--seed", &seed.to_string(), "--from", &(base + k).to_string(), "--stride", &shards.to_string(), "--count", &count.to_string(), "--secs", &secs.to_string()]),
+            );
+            j.timeout_s = secs * 3 + 60;
+            j
+        })
+        .collect()
+}
+
+fn seq_rule(prop: &str) -> String {
+    let nt = match prop {
+        "C01" => "at least one allocation served from a recycled free-list segment while two or more other allocations were live",
+        "C03" => "at least one typed/aligned allocation from a recycled segment and one from fresh space at a cursor that needed padding",
+        "C05" => "at least one close+reopen while the free list was non-empty and detached live ranges existed",
+        "C08" => "at least one alloc_bytes zero-check on reused space (recycled / top-released / rewound / reopened) that held non-zero bytes just before the call",
+        "C10" => "at least one slow-path allocation decided against a free list of two or more segments",
+        "C11" => "both flavours ran the history in lock-step and it reached the slow path",
+        "C13" => "owned handles and arena clones were created and dropped in a random order",
+        "C16" => "the history ran on more than one backend / runner in lock-step",
+        "C17" => "rewind or clear executed while the free list was non-empty",
+        "C18" => "truncate executed with a non-empty free list or detached live data",
+        "C20" => "discard_freelist on a non-empty list or a release too small to become a segment",
+        _ => "reached the slow path",
+    };
+    format!(
+        "history i = generator(seed, i): sampled configuration (flavour x freelist x backend x unify x reserved x min segment size x max alignment x capacity x retries, covering schedule) + 50..400 state-dependent operations, every step checked by the shadow map, the sequential reference model and lock-step differential runners; a history counts as non-trivial when {}; distinct = distinct hashes of the executed operation log",
+        nt
+    )
+}
+
+pub fn plan(prop: &str, tier: &str, seed: u64) -> Option<Plan> {
+    let quick = tier != "thorough";
+    let mut p = Plan {
+        level: "exploration",
+        rule: String::new(),
+        assumptions: vec![],
+        jobs: vec![],
+        eval_counter: "histories",
+        required_nonzero: vec![],
+        min_eval: 50,
+        min_distinct: 10,
+        extra_prefixes: vec![],
+        exhaustive: false,
+        par: CORES,
+    };
+    match prop {
+        "C01" | "C03" | "C05" | "C08" | "C10" | "C11" | "C13" | "C16" | "C17" | "C18" | "C20" => {
+            p.rule = seq_rule(prop);
+            let (n_rel, secs) = if quick { (1200, 25) } else { (400000, 600) };
+            p.jobs = seq_jobs(prop, seed, "rel", 12, n_rel, secs, 0);
+            // overflow-checked build: arena panics become observable events
+            p.jobs.extend(seq_jobs(prop, seed, "dbg", 4, n_rel / 4, secs, 1_000_000));
+            if !quick && have("asan") {
+                let mut a = seq_jobs(prop, seed, "asan", 4, 20000, 300, 2_000_000);
+                for j in a.iter_mut() {
+                    j.env.push(("ASAN_OPTIONS".into(), "detect_leaks=0:halt_on_error=1:abort_on_error=0:exitcode=67".into()));
+                    j.env.push(("VH_NO_WATCH".into(), "1".into()));
+                    j.report_codes = vec![67];
+                }
+                p.jobs.extend(a);
+            }
+            p.assumptions = vec![
+                "the reference model states only what the property text and README state; unspecified quantities are adopted from the implementation".into(),
+                "histories keep to the documented safety contracts of the unsafe calls (dealloc of ranges returned by the arena, no use of handles above a rewound cursor)".into(),
+                "sampled, not enumerated: only executed histories are judged".into(),
+            ];
+            p.extra_prefixes = vec!["axis.", "c01_", "c03_", "c05_", "c08_", "c09_", "c10_", "c13_", "c16_", "c17_", "c18_", "c20_", "release.", "alloc_err."];
+            p.required_nonzero = match prop {
+                "C01" => sv(&["release.insert", "c10_slow_path_policy_checks"]),
+                "C03" => sv(&["c03_capacity_alignment_checks", "c03_recycled_typed", "c03_fresh_padded", "zero_size_requests", "c03_address_checks"]),
+                "C05" => sv(&["c05_reopen_checks.MapMut", "c05_reopen_checks.MapCopy", "c05_reopen_checks.Map", "c05_reopen_checks.MapCopyRo"]),
+                "C08" => sv(&["c08_zero_checks_on_dirty_space.recycled", "c08_zero_checks_on_dirty_space.top-released", "c08_zero_checks_on_dirty_space.rewound", "c08_zero_checks.fresh", "c08_zero_checks.fresh-after-reopen"]),
+                "C10" => sv(&["c10_slow_path_policy_checks", "c10_split_remainders", "c10_whole_segment"]),
+                "C11" => sv(&["c10_slow_path_policy_checks"]),
+                "C13" => sv(&["c13_release_effect_checks", "c13_detach_checks", "c13_value_drop_checks", "c13_backing_checks", "original_arena_dropped_first"]),
+                "C16" => sv(&["c16_accessor_tables_checked", "c16_first_allocation_checks"]),
+                "C17" => sv(&["c17_rewind_checks", "c17_clear_checks", "c17_fresh_twins_started"]),
+                "C18" => sv(&["c18_truncate_checks"]),
+                "C20" => sv(&["c20_discard_delta_checks", "c20_discard_freelist_nonempty", "c20_increase_discarded_checks"]),
+                _ => vec![],
+            };
+        }
+        _ => return None,
+    }
+    Some(p)
+}
+
+pub fn main(args: &Args) -> i32 {
+    if let Some(path) = args.kv.get("replay") {
+        return replay(path);
+    }
+    let Some(prop) = args.pos.first().cloned() else {
+        eprintln!("usage: vh drive <ID> --tier quick|thorough");
+        return 3;
+    };
+    let tier = args.str("tier", &std::env::var("VERIF_TIER").unwrap_or_else(|_| "quick".into()));
+    let tier = if tier == "thorough" { "thorough" } else { "quick" };
+    let seed = args.u64("seed", std::env::var("VERIF_SEED").ok().and_then(|s| s.parse().ok()).unwrap_or(1));
+    let Some(p) = plan(&prop, tier, seed) else {
+        eprintln!("no plan for property {}", prop);
+        return 3;
+    };
+    let t0 = Instant::now();
+    let m = run_jobs(p.jobs.clone(), p.par, &prop);
+    let mut extra: Vec<(String, J)> = vec![];
+    extra.push(("steps".into(), J::Int(m.c("steps") as i128)));
+    for pre in &p.extra_prefixes {
+        let j = m.cnt_prefix(pre);
+        if let J::Obj(o) = &j {
+            if !o.is_empty() {
+                extra.push((format!("counters:{}", pre.trim_end_matches(['.', '_'])), j));
+            }
+        }
+    }
+    extra.push(("model_divergences".into(), J::Int(m.c("model_divergence") as i128)));
+    extra.push(("harness_panics".into(), J::Int(m.c("harness_panics") as i128)));
+    extra.push(("maxima".into(), J::Obj(m.max.iter().map(|(k, v)| (k.clone(), J::Int(*v as i128))).collect())));
+    let spec = EvidenceSpec {
+        prop: prop.clone(),
+        tier: tier.to_string(),
+        seed,
+        level: p.level.to_string(),
+        rule: p.rule.clone(),
+        evaluations: m.c(p.eval_counter),
+        extra,
+        assumptions: p.assumptions.clone(),
+        min_eval: p.min_eval,
+        min_distinct: p.min_distinct,
+        required_nonzero: p.required_nonzero.clone(),
+        wall_s: t0.elapsed().as_secs_f64(),
+        exhaustive: p.exhaustive,
+    };
+    finish(spec, &m)
+}
+
+fn replay(path: &str) -> i32 {
+    let Ok(s) = std::fs::read_to_string(path) else {
+        eprintln!("cannot read {}", path);
+        return 3;
+    };
+    let Ok(j) = json::parse(&s) else {
+        eprintln!("cannot parse {}", path);
+        return 3;
+    };
+    let prop = j.get("property").and_then(|x| x.as_str()).unwrap_or("").to_string();
+    // prefer the precise per-case args recorded by the child
+    let argv: Vec<String> = if let Some(a) = j.get("detail").and_then(|d| d.get("replay_args")).and_then(|x| x.as_str()) {
+        a.split_whitespace().map(|s| s.to_string()).collect()
+    } else {
+        j.get("argv").and_then(|a| a.as_arr()).map(|a| a.iter().filter_map(|x| x.as_str().map(|s| s.to_string())).collect()).unwrap_or_default()
+    };
+    if argv.is_empty() {
+        eprintln!("replay file has no argv");
+        return 3;
+    }
+    let variant = if j.get("job").and_then(|x| x.as_str()).unwrap_or("").contains("dbg") { "dbg" } else { "rel" };
+    println!("replaying: {} {}", bin(variant), argv.join(" "));
+    let mut job = Job::new("replay", &bin(variant), argv);
+    job.timeout_s = 600;
+    let r = run_one(&job);
+    let mut hit = false;
+    for l in r.stdout.lines() {
+        if l.starts_with("VIOL ") {
+            let mut it = l.splitn(4, ' ');
+            it.next();
+            let p = it.next().unwrap_or("");
+            let sig = it.next().unwrap_or("");
+            if p == prop {
+                hit = true;
+                println!("VIOLATION property={} replay={}", prop, path);
+                println!("  signature: {}", sig);
+            }
+        }
+    }
+    if !r.stderr.trim().is_empty() {
+        println!("{}", r.stderr.lines().rev().take(20).collect::<Vec<_>>().into_iter().rev().collect::<Vec<_>>().join("\n"));
+    }
+    if hit {
+        1
+    } else {
+        println!("replay did not reproduce a violation of {}", prop);
+        0
+    }
 }
